@@ -99,6 +99,13 @@ def packet_faults(d, rnd, tier):
     pad = d[4]
     for v in (0, 3, pad - 1, pad + 1, 255):
         out.append(('padlen=%d' % v, f_then_eof(f_patch(4, bytes([v & 0xff])))))
+    # a correctly framed packet whose payload ends early (length, padding and alignment are consistent; fields are missing)
+    payload = d[5:5 + (plen - pad - 1)]
+    cuts = sorted({1, 2, 17, 21, len(payload) // 2, len(payload) - 5, len(payload) - 1}) if tier == 'quick' else range(1, len(payload))
+    for k in cuts:
+        if 0 < k < len(payload):
+            from harness import wire as _w
+            out.append(('shortpayload@%d' % k, (lambda _d, k=k, payload=payload: [_w.frame(payload[:k])])))
     # the packet with an empty payload (padding fills the whole packet)
     out.append(('emptypayload', lambda _d: [struct.pack('>IB', 4, 3) + b'\x00' * 3, fakenet.EOF]))
     t = d[5]
@@ -247,6 +254,10 @@ def build(tier, rnd):
             scs.append(scenario(c))
             meta.append((name, 'segment=%d' % seg, None, cfg, True))
         c = peers.ServerCfg(cfg)
+        c['mutate'] = _split_at_padding
+        scs.append(scenario(c))
+        meta.append((name, 'split-at-padding', None, cfg, True))
+        c = peers.ServerCfg(cfg)
         c['kexinit_with_banner'] = True
         scs.append(scenario(c))
         meta.append((name, 'kexinit-with-banner', None, cfg, True))
@@ -275,6 +286,10 @@ def build(tier, rnd):
             c['mutate'] = mk_mutator(n, idx, fn)
             scs.append(scenario(c))
             meta.append((name, 'conn%d/%s#%d/randmut%d' % (n, kind, idx, seed), (n, kind), cfg, True))
+    # a peer that answers every identification string, SSH-2 or SSH-1, with the protocol-mismatch text
+    c = peers.ServerCfg(banner=b'SSH-1.5-Stubborn_1.0', wrong_version_always=True)
+    scs.append({'argv': ['-n', HOST], 'servers': {(HOST, 22): c}})
+    meta.append(('none', 'always-protocol-mismatch', None, peers.ServerCfg(), False))
     # unreachable targets
     scs.append({'argv': ['-n', HOST], 'servers': {}})
     meta.append(('none', 'refused', None, peers.ServerCfg(), False))
@@ -283,6 +298,18 @@ def build(tier, rnd):
     scs.append({'argv': ['-n', HOST], 'servers': {(HOST, 22): 'timeout'}})
     meta.append(('none', 'connect-timeout', None, peers.ServerCfg(), False))
     return scs, meta, dh
+
+
+def _split_at_padding(n, kind, idx, data):
+    """Deliver every binary packet in two TCP segments: up to the end of the payload, then the padding (legal segmentation)."""
+    if kind in ('banner', 'prebanner', 'text', 'eof') or len(data) < 6:
+        return [data]
+    plen = struct.unpack('>I', data[:4])[0]
+    pad = data[4]
+    cut = 4 + plen - pad
+    if plen + 4 != len(data) or not 5 < cut < len(data):
+        return [data]
+    return [data[:cut], data[cut:]]
 
 
 def _install_recorder(world):
@@ -361,13 +388,27 @@ def run(tier):
         if direct:
             ck.violation(direct[0] + ' ' + fault_class(what), '[%s, %s] %s' % (name, what, direct[1]), replay)
             continue
+        # the handshake messages never arrived complete: the audit must end with status 1 and no algorithm report
+        if must_fail_handshake(what, point):
+            if res.get('exit') != 1 or audit.has_report(res):
+                ck.violation('incomplete-handshake-accepted %s' % fault_class(what),
+                             '[%s, %s] the peer never delivered a complete, well-formed KEXINIT, yet the audit ends with status %s%s'
+                             % (name, what, res.get('exit'), ' and prints an algorithm report' if audit.has_report(res) else ''), replay)
+                continue
+        if what == 'always-protocol-mismatch':
+            if res.get('exit') != 1 or res.get('nconn', 0) > 2:
+                ck.violation('protocol-mismatch-retry exit=%s' % res.get('exit'), 'a peer refusing both protocol versions: status %s after %d connections (expected status 1 after at most 2)'
+                             % (res.get('exit'), res.get('nconn', 0)), replay)
+            else:
+                ck.cov['traces_validated_against_impl'] += 1
+            continue
         # protocol-conformant variations of a well-formed transcript must not change the outcome of the audit
-        variation = next((v for v in ('segment=', 'debug x', 'prebanner x', 'kexinit-with-banner') if what.startswith(v)), None)
+        variation = next((v for v in ('segment=', 'debug x', 'prebanner x', 'kexinit-with-banner', 'split-at-padding') if what.startswith(v)), None)
         if variation is not None:
             clean = clean_of.get(name)
             if clean is not None and (res.get('exit'), audit.has_report(res)) != clean:
-                kind = {'segment=': 'tcp-segmentation', 'debug x': 'debug-message-before-kexinit', 'prebanner x': 'pre-banner-lines',
-                        'kexinit-with-banner': 'kexinit-with-banner'}[variation]
+                kind = {'segment=': 'tcp-segmentation ' + what.replace(' ', ''), 'debug x': 'debug-message-before-kexinit', 'prebanner x': 'pre-banner-lines',
+                        'kexinit-with-banner': 'kexinit-with-banner', 'split-at-padding': 'packet-split-at-padding'}[variation]
                 ck.violation('%s exit=%s report=%s' % (kind, res.get('exit'), audit.has_report(res)),
                              '[%s, %s] a well-formed handshake delivered as %s ends with status %s%s; the same transcript delivered plainly gives status %s with a report'
                              % (name, what, what, res.get('exit'), '' if audit.has_report(res) else ' and no report', clean[0]), replay)
@@ -391,6 +432,18 @@ def run(tier):
     return ck.finish()
 
 
+def must_fail_handshake(what, point):
+    """Faults on the first connection after which no complete, well-formed KEXINIT can have reached the tool."""
+    if point is None or point[0] != 1 or point[1] not in ('banner', 'kexinit'):
+        return False
+    f = what.rsplit('/', 1)[-1]
+    if f in ('eof', 'stall', 'reset') or f.startswith('trunc@'):
+        return True
+    if point[1] == 'kexinit' and f.startswith('shortpayload@'):
+        return True
+    return False
+
+
 def fault_class(what):
     """Generalise a fault description to the class used in signatures (stable across seeds and offsets)."""
     import re
@@ -399,6 +452,7 @@ def fault_class(what):
     w = re.sub(r'#\d+', '', w)
     w = re.sub(r'randmut\d+', 'randmut', w)
     w = re.sub(r'trunc@\d+', 'trunc', w)
+    w = re.sub(r'shortpayload@\d+', 'shortpayload', w)
     w = re.sub(r'strlen@\d+=\d+', 'strlen', w)
     w = re.sub(r'strlen@\d+=huge', 'strlen=huge', w)
     w = re.sub(r'plen=\d+', 'plen', w)
@@ -441,7 +495,10 @@ def c02_leg(ck, tier):
         shows = any(t in out for t in ('(kex) ', '(key) ', '(enc) ', '(mac) '))
         st = res.get('exit')
         replay = {'fault': m[1], 'archetype': m[0], 'argv': sc['argv'], 'exit': st, 'stdout': out[-2000:]}
-        if st in (0, 2, 3) and not shows:
+        if must_fail_handshake(m[1], m[2]) and (st in (0, 2, 3) or shows):
+            ck.violation('incomplete-audit-accepted exit=%s' % st, '[%s] the KEXINIT never arrived complete and well-formed, yet status %s%s'
+                         % (m[1], st, ' with an algorithm report' if shows else ''), replay)
+        elif st in (0, 2, 3) and not shows:
             ck.violation('incomplete-audit-looks-clean exit=%s' % st, '[%s] status %s without an algorithm report' % (m[1], st), replay)
         elif st == 1 and shows:
             ck.violation('incomplete-audit-prints-report', '[%s] status 1 but an algorithm report was printed' % m[1], replay)
